@@ -314,6 +314,9 @@ func ExpectedDump(all [][]byte) (entries []string, nodes, nonRootFails int) {
 }
 
 // checkDump compares the implementation's dump line with ExpectedDump; key "" = holds.
+// CheckDump is exported for the C06 package.
+func CheckDump(all [][]byte, out string) (string, string) { return checkDump(all, out) }
+
 func checkDump(all [][]byte, out string) (string, string) {
 	if out == "panic" {
 		return "panic", "dump panicked"
